@@ -155,6 +155,17 @@ CHECKS = {
         "Values from classes + VERIF_SEED; lengths above the bound not explored.",
         "DESIGN.md section 3 C12",
     ),
+    "C13": (
+        "exploration",
+        "exhaustive enumeration of data lengths x template kinds x banks; every response value vs a float64 inner product; every pulse position",
+        "For every data length 32..135 (300), good FFT size or not, 3 template kinds and 6 banks: every response convs[k,t] (all templates, all "
+        "bins) is compared with the float64 inner product of the library's standardised data with the independently built zero-mean unit-norm "
+        "template whose reference bin sits at t; snr/peak_bin/best_temp must be the argmax; results must be invariant under 6 affine maps; and "
+        "for a grid of lengths a noiseless boxcar of every bank width at every start bin 0..n-1 (wrapping included) must be recovered at its bin and width.",
+        "Tolerance 32*eps32*log2(n)*||z|| (observed <= 0.01 of it). z is the library's own standardisation (C15 covers it). Exact ties excluded. "
+        "Banks that do not fit the data are out of scope.",
+        "DESIGN.md section 3 C13",
+    ),
 }
 
 ENGINES = [
